@@ -8,29 +8,7 @@
 (*                                          CRevisionModel)                *)
 (* The prior ranking kap is a parameter of the operators.                  *)
 (***************************************************************************)
-EXTENDS InfOCFSem
-
-VARIABLES conds, acc, rej
-rvars == <<conds, acc, rej>>
-
-RInit(WS) == conds = [i \in {} |-> 0] /\ acc = [w \in WS |-> {}] /\ rej = [w \in WS |-> {}]
-
-Add(i, c) ==
-    /\ i \notin DOMAIN conds
-    /\ conds' = [k \in (DOMAIN conds) \cup {i} |-> IF k = i THEN c ELSE conds[k]]
-    /\ acc' = [w \in DOMAIN acc |-> IF c[w] = 1 THEN acc[w] \cup {i} ELSE acc[w]]
-    /\ rej' = [w \in DOMAIN rej |-> IF c[w] = 2 THEN rej[w] \cup {i} ELSE rej[w]]
-
-Remove(i) ==
-    /\ conds' = [k \in (DOMAIN conds) \ {i} |-> conds[k]]
-    /\ acc' = [w \in DOMAIN acc |-> acc[w] \ {i}]
-    /\ rej' = [w \in DOMAIN rej |-> rej[w] \ {i}]
-
-(* the caches always say exactly which current conditionals a world verifies / falsifies *)
-CachesExact ==
-    \A w \in DOMAIN acc :
-        /\ acc[w] = {i \in DOMAIN conds : conds[i][w] = 1}
-        /\ rej[w] = {i \in DOMAIN conds : conds[i][w] = 2}
+EXTENDS InfOCFSem, RevisionCore
 
 (* compilation of a list of conditionals against a prior: per index the bag *)
 (* of triples <<rank, verified others, falsified others>>, one per world    *)
